@@ -2,6 +2,7 @@ SPECIFICATION Spec
 CONSTANTS Size = "t"  Variant = "strict"
 INVARIANT TypeOK
 INVARIANT MaskIsInclusion
+INVARIANT RadiiByRule
 INVARIANT BoundaryExcluded
 INVARIANT SymmetricMask
 INVARIANT Extruded
